@@ -4,7 +4,7 @@ worktree of /repo HEAD (never to /repo itself), run the repository test-suite th
 checks expected to catch it with IXAI_REPO pointing at the worktree (evidence goes to a scratch directory); record in
 mutants/matrix.json; the worktree is removed after every mutant."""
 import glob, json, os, re, subprocess, sys, time
-os.chdir('/verif')
+os.chdir(os.environ.get('VERIF_ROOT', '/verif'))
 idx = json.load(open('mutants/index.json'))
 muts = {n: (f'mutants/{n}.diff', props) for n, props in idx.items()}
 for d in sorted(glob.glob('seeded/*/')):
